@@ -874,37 +874,42 @@ theorem filterMap_id_length_of_no_none (l : List (Option RCol))
       simp only [List.any_cons, Option.isNone_some, Bool.false_or] at hl
       simp [ih hl]
 
-/-- the internal consistency assertions of `MafRecord.validate` hold in every coherent
+/-- the internal consistency checks of `MafRecord.validate` find nothing in a coherent
     record without an empty slot -/
-theorem Record.Inv.assertionsHold {r : Record} (h : r.Inv)
-    (hfull : r.slots.any (·.isNone) = false) : r.assertionsHold = .ok true := by
-  unfold Record.assertionsHold
-  have h1 : r.dict.any (fun p => p.2.col.index.isNone) = false := by
-    rw [List.any_eq_false]
-    intro p hp
-    obtain ⟨_, i, hi, _⟩ := h.dict_ok p hp
-    simp [hi]
-  rw [h1]
-  simp only [Bool.false_eq_true, if_false, Except.ok.injEq, Bool.and_eq_true, decide_eq_true_eq,
-    beq_iff_eq]
-  refine ⟨⟨?_, ?_⟩, ?_⟩
-  · have := h.vals_perm_occ.length_eq
+theorem Record.Inv.syncErrors {r : Record} (h : r.Inv)
+    (hfull : r.slots.any (·.isNone) = false) : r.syncErrors = [] := by
+  have hlen : r.dict.length = r.slots.length := by
+    have := h.vals_perm_occ.length_eq
     rw [filterMap_id_length_of_no_none _ hfull, List.length_map] at this
     exact this
-  · have := h.sorted_values
-    simp only [RCol.idx] at this
-    refine Eq.trans (congrArg (List.map _) (a₂ := r.slots.filterMap id) ?_) ?_
-    · exact this
-    · rw [List.map_filterMap]
-      congr 1
-  · rw [List.all_eq_true]
-    rintro ⟨o, i⟩ hp
+  simp only [Record.syncErrors, List.append_eq_nil_iff, List.filterMap_eq_nil_iff]
+  constructor
+  · rw [if_pos]
+    rw [Bool.and_eq_true, decide_eq_true_eq, List.all_eq_true]
+    refine ⟨hlen, ?_⟩
+    intro o ho
+    cases o with
+    | none => rfl
+    | some c =>
+      obtain ⟨i, hi⟩ := List.mem_iff_getElem?.1 ho
+      simp [(h.slot_ok i c hi).2]
+  · rintro ⟨o, i⟩ hp
     rw [List.mem_zipIdx_iff_getElem?] at hp
     cases o with
     | none => rfl
     | some c =>
       simp only at hp
       simp [(h.slot_ok i c hp).1]
+
+/-- without a (truthy) scheme the framing check is off -/
+theorem Record.columnErrors_none (C : Ctx) (r : Record) (c : RCol) :
+    r.columnErrors C none c = c.col.validate C none none := by
+  simp [Record.columnErrors]
+
+theorem Record.columnErrors_of_not_truthy (C : Ctx) (r : Record) (scheme : Option Scheme) (c : RCol)
+    (h : scheme.filter Scheme.truthy = none) :
+    r.columnErrors C scheme c = c.col.validate C scheme none := by
+  simp [Record.columnErrors, h]
 
 /-! ### lookups -/
 
